@@ -19,9 +19,23 @@
 (*            to its ISO text (TLC cannot order strings)                   *)
 (* clause "b" (property): replayed = accepted written, as (timestamp,      *)
 (* frame text), in order.  Everything else is "drift".                     *)
+(*                                                                         *)
+(* history item = [hist, files, window]: the packet log configured several *)
+(* times in ONE process, nothing but the library's own set_pkt_logging in  *)
+(* between                                                                 *)
+(*   hist   the sessions, in order: [file, console, written] = what        *)
+(*          set_pkt_logging was called with (file "" = none, console 0/1)  *)
+(*          and what was offered afterwards (records as above)             *)
+(*   files  per log file name used: [name, lines, replayed, regen] = its   *)
+(*          text at the end of the history and what replaying it delivered *)
+(* clause "b" per file: it replays as what was accepted while it was the   *)
+(* configured packet log (Judge on OfferedTo); verdict tuples carry the    *)
+(* file's index as a 4th component.  Drift: the files differ from what the *)
+(* handler-list model of PktLog (RunHist) predicts.                        *)
 (***************************************************************************)
 EXTENDS Integers, Sequences, FiniteSets, TLC, Json, IOUtils
 
+FixCleanup == TRUE      \* the trace judge describes the repaired clean-up loop (PktLog.tla)
 INSTANCE PktLog
 
 Traces == JsonDeserialize(IOEnv.TRACE_FILE)
@@ -77,9 +91,23 @@ Judge(it) ==
            \cup (IF d5 # 0 \/ Len(dl2) # Len(dl1) THEN {<<d5, "drift", "second_generation_log_differs">>} ELSE {})
   IN  BF \cup BT \cup D
 
+JudgeHist(it) ==
+  LET h  == [k \in 1..Len(it.hist) |-> [file |-> it.hist[k].file, console |-> it.hist[k].console, ps |-> it.hist[k].written]]
+      mf == HistFiles(h)
+      One(i) ==
+        LET fr  == it.files[i]
+            sub == [written |-> OfferedTo(h, 1, fr.name), lines |-> fr.lines, replayed |-> fr.replayed, regen |-> fr.regen,
+                    complete |-> 1, window |-> it.window]
+            dm  == FirstDiff(fr.lines, mf[fr.name], SameTail)
+        IN  {<<t[1], t[2], t[3], i>> : t \in Judge(sub)}
+            \cup (IF dm # 0 \/ Len(fr.lines) # Len(mf[fr.name])
+                  THEN {<<dm, "drift", "log_files_differ_from_handler_list_model", i>>} ELSE {})
+  IN  UNION {One(i) : i \in 1..Len(it.files)}
+
 Init == tid \in 1..Len(Traces) /\ l = 1 /\ fail = <<>>
 Step == /\ l = 1
-        /\ fail' = (LET S == Judge(Traces[tid]) IN IF S = {} THEN <<>> ELSE S)
+        /\ fail' = (LET S == IF "hist" \in DOMAIN Traces[tid] THEN JudgeHist(Traces[tid]) ELSE Judge(Traces[tid])
+                    IN  IF S = {} THEN <<>> ELSE S)
         /\ l' = 2 /\ UNCHANGED tid
 Spec == Init /\ [][Step]_vars
 Verdict == (l = 2) => PrintT(<<"VERDICT", tid, fail>>)
